@@ -150,6 +150,85 @@ CLAIMED = {
         note=TB + "Text is modelled at code-point level (the built-ins count chars). `lines` is only partially proved; list "
              "index_of/append are correspondence-only. Known findings: trims remove only U+0020; \"\".index_of(\"\") is None.",
         design="§7 C32"),
+
+    "C06": dict(
+        category="proof",
+        technique="Lean 4 proof of an inductive balance invariant over the machine model M4 (all reachable states) + per-tick trace correspondence incl. binding-block key sets",
+        text="Proved for every program and every reachable state of an error-free run of the machine model: each frame has "
+             "exactly base + (number of entered-and-not-yet-left blocks) binding blocks (dispatch_bal over all node kinds and "
+             "states, evalBreakLoop_spec / evalContinueLoop_spec for break/continue through any nesting, step_bal, reach_bal), "
+             "hence between two statements of a frame only its base blocks exist (toplevel_scope_restored, "
+             "frame_scope_restored) and a variable bound in a block that control has left - normally, by break, by continue, "
+             "by return - is unbound. Correspondence: real evaluator traces (with the key set of every block) equal the "
+             "model's on all nestings of {while, for, if, if/else, match} x {none, break, continue, return} and on random "
+             "programs; oracle: referencing each inner variable after its block must give `No such variable`.",
+        note=TB + "Runs that stop with a runtime error are outside the invariant (the state is kept for :resume). Interrupt + "
+             "resume reaches the same frames (C08). Fragment as C08. Holds with the two break/continue fixes.",
+        design="§7 C06"),
+    "C17": dict(
+        category="translation_validation",
+        technique="per-input validation by a Lean-defined relation (sameTokens) on the real lexer's tokens + Lean-proved content preservation of the edit phases + parser-tree oracle",
+        text="Every judged (input, formatter output) pair (~1.7k parseable programs per quick run: generated programs x "
+             "whitespace/comment perturbations, repo seeds, multi-line strings, long signatures, non-ASCII) is checked by the "
+             "Lean relation sameTokens evaluated on the REAL lexer's token lists and by comparing the real parser's trees and "
+             "comment lists. apply_span_edits and apply_indentation_edits are proved (all inputs) to leave every token and "
+             "comment byte unchanged and not to panic under edit-list preconditions (edits in gaps) that are evaluated on the "
+             "real edit lists dumped by the fmt_trace hook; the exact phase models reproduce every real intermediate text.",
+        note=TB + "gap_rewrite_same_tokens is stated over segmentations (that the real lexer re-segments the rendered text is "
+             "decided per input). sameTokens => same parse is replaced by the per-input tree comparison (needs the parser "
+             "model). Known finding: blank lines inside a multi-line string are collapsed. Inputs containing CR are judged in "
+             "C18 only.",
+        design="§7 C17"),
+    "C18": dict(
+        category="translation_validation",
+        technique="per-input double formatting + `format --check` on formatter output + Lean phase-idempotence lemmas over exact phase models",
+        text="Every input (~2.2k per quick run, including unparseable and damaged ones) is formatted twice through the real "
+             "formatter and the second pass must change nothing; `garden format --check` must accept formatter output (CLI "
+             "sample). Proved in Lean: applying no span edits is the identity; the final-newline phase is idempotent. The "
+             "exact phase models are compared with the real intermediate texts of every run.",
+        note=TB + "Whether the edit collectors emit no edits on formatted text is not modelled; it is decided per input. Known "
+             "findings (real non-idempotence): second-pass indentation of a closing parenthesis line, stale line numbers "
+             "after joined lines, CR handling.",
+        design="§7 C18"),
+    "C24": dict(
+        category="proof",
+        technique="Lean 4 proof over translator-extracted tables (regenerated from eval.rs on every run, decided by `decide`) + behavioural tie of the translator + effect-observing oracle",
+        text="Proved for all programs (any sequence of built-in calls, all arguments) over the gating model: in sandboxed mode "
+             "every effectful built-in returns ForbiddenInSandbox before inspecting arguments and no OS-touching call is made "
+             "(sandboxed_run_effect_free, first_effectful_call_ends_run, entry_points_effect_free). The per-arm facts (guard is "
+             "the first statement; which std calls occur) and the entry-point configuration are re-extracted from the Rust "
+             "source on every run and checked by decide (sandbox_gates_effects, configs_*). Every arm is called in six "
+             "positions under playground-run and sandboxed-test with a scratch-tree snapshot, PATH canaries and a stdin sentinel.",
+        note=TB + "Effects are the translator's fixed pattern list; the evaluator is assumed to reach the OS only through the two "
+             "dispatch functions. `import` of a local file reads it ungated (outside the filesystem API; reported). Memory, "
+             "time and ambient reads (env vars, clock, tty) are not covered. Holds with the read_line fix.",
+        design="§7 C24"),
+    "C28": dict(
+        category="proof",
+        technique="Lean 4 proof over a dispatch model of handle_message/run_lsp + table tie + correspondence through reftest-lsp and the real framed server",
+        text="Proved for every well-formed method table (the current one by decide), every state and every message sequence: "
+             "exactly one response with the request's id per request (known or unknown method, good or bad params, broken "
+             "envelope with an id), none for notifications, only `exit` stops the server, status 0 iff a shutdown preceded; over "
+             "sequences the response ids equal the request ids in order (run_responses). ~300 generated sessions per quick run "
+             "go through reftest-lsp and the real framed `garden lsp` (liveness probe, malformed framing) and are compared "
+             "with the model; published diagnostics are compared with `garden check --json`.",
+        note=TB + "Handler bodies (hover, completion, ...) are total functions in the model: their panic-freedom is the front "
+             "end's (C01) and is only tested. Known findings: front-end panics / stack overflow on pathological documents kill "
+             "the server.",
+        design="§7 C28"),
+    "C34": dict(
+        category="proof",
+        technique="Lean 4 proof over a model of the import loader and both visibility checks + correspondence on generated project directories",
+        text="Proved with no acyclicity hypothesis: the loader terminates on every finite project (fuel |files|+1, at most "
+             "|files| recursive loads); after loading, a file's exported symbols are exactly its public functions; `ns::x` "
+             "resolves at run time iff the checker accepts it iff x is a public function of that file; no private function is "
+             "ever in scope of another file (import_exactly_public_partial, import_only_public_in_scope). Generated projects "
+             "(chains, diamonds, cycles, self-import, repeated and unqualified imports, missing files) are probed per name "
+             "through `garden check --json` and `garden run` and compared with the model.",
+        note=TB + "Partial: functions only. For types, methods, enum variants and unqualified imports inside a cycle the "
+             "implementation does not follow the statement; these are proved as model witnesses and recorded as narrow known "
+             "findings.",
+        design="§7 C34"),
 }
 
 NOT_YET = {}
